@@ -1,8 +1,743 @@
 import QP.Base
+/-!
+# C18 — model of `qupulse.hardware.setup.HardwareSetup` driving `DummyAWG` / `DummyDAC`
+
+State: wiring maps (`_channel_map`, `_measurement_map`), `_registered_programs`, and for every device
+the dictionary it holds plus its armed program.  `step` mirrors the public operations including their
+error cases.  Python dictionaries are association lists (`aget`/`aput`/`adel`), Python sets are
+duplicate-free lists (`dedup`, first element kept, as `set(iterable)` / `a | b` do).
+
+`register` takes a flag `fix`: `fix = true` is the behaviour with `fixes/PF-19.diff` applied (devices of
+the previous registration of the same name that the new program no longer uses drop the program),
+`fix = false` is the behaviour of the unrepaired code (kept for the counterexample theorem).
+
+The two nested loops of `register_program` that write `playback_ids[pos] = channel_id` in iteration
+order are modelled by their result: the value at a position is the *last* write that hits it (`slot`).
+-/
 namespace QP.C18
+
+abbrev Chan := Nat      -- channel identifier
+abbrev MName := Nat     -- measurement name
+abbrev Mask := Nat      -- mask name on a DAC
+abbrev Name := Nat      -- program name
+abbrev AwgId := Nat
+abbrev DacId := Nat
+abbrev Trafo := Nat     -- identity of a voltage transformation callable
+abbrev Windows := List (Rat × Rat)   -- (begin, length)
+
+inductive Err where
+  | typeError | keyError | valueError | programOverwrite | unknownDevice
+  deriving DecidableEq, Repr
+
+inductive Kind where
+  | playback | marker
+  deriving DecidableEq, Repr
+
+/-- a `PlaybackChannel` / `MarkerChannel` object -/
+structure Out where
+  awg : AwgId
+  kind : Kind
+  pos : Nat
+  trafo : Trafo
+  deriving DecidableEq, Repr
+
+/-- `_SingleChannel.__eq__`: `(id(awg), channel_on_awg, type)`; the transformation is not compared -/
+def Out.same (o o' : Out) : Bool := decide (o.awg = o'.awg ∧ o.kind = o'.kind ∧ o.pos = o'.pos)
+
+/-- a `MeasurementMask` object; it has no `__eq__`, so sets compare the object identity `oid` -/
+structure MaskRef where
+  dac : DacId
+  mask : Mask
+  oid : Nat
+  deriving DecidableEq, Repr
+
+def MaskRef.same (m m' : MaskRef) : Bool := decide (m.oid = m'.oid)
+
+/-! ## association lists = Python dicts -/
+section AList
+variable {κ β : Type} [DecidableEq κ]
+
+def aget (k : κ) : List (κ × β) → Option β
+  | [] => none
+  | kv :: l => if kv.1 = k then some kv.2 else aget k l
+
+def adel (k : κ) (l : List (κ × β)) : List (κ × β) := l.filter fun kv => !decide (kv.1 = k)
+
+def aput (k : κ) (v : β) (l : List (κ × β)) : List (κ × β) := (k, v) :: adel k l
+
+def hasKey (k : κ) (l : List (κ × β)) : Bool := (aget k l).isSome
+
+end AList
+
+/-- `set(iterable)`: the first of several equal elements is kept -/
+def dedup {α : Type} (same : α → α → Bool) : List α → List α
+  | [] => []
+  | x :: l => x :: (dedup same l).filter fun y => !same x y
+
+/-! ## state -/
+
+/-- what `DummyAWG._programs[name]` holds -/
+structure Upload where
+  pid : Nat
+  chs : List (Option Chan)
+  mks : List (Option Chan)
+  tfs : List (Option Trafo)
+  deriving DecidableEq, Repr
+
+structure Awg where
+  nch : Nat
+  nmk : Nat
+  progs : List (Name × Upload)
+  armed : Option Name
+  deriving DecidableEq, Repr
+
+def Awg.size (g : Awg) : Kind → Nat
+  | .playback => g.nch
+  | .marker => g.nmk
+
+structure Dac where
+  progs : List (Name × List (Mask × Windows))
+  armed : Option Name
+  deriving DecidableEq, Repr
+
+/-- what the caller hands to `register_program` -/
+structure Program where
+  pid : Nat
+  channels : List Chan
+  meas : List (MName × Windows)
+  deriving DecidableEq, Repr
+
+/-- `RegisteredProgram` -/
+structure Reg where
+  pid : Nat
+  channels : List Chan
+  meas : List (MName × Windows)
+  awgs : List AwgId
+  dacs : List DacId
+  deriving DecidableEq, Repr
+
+structure State where
+  chanMap : List (Chan × List Out)
+  measMap : List (MName × List MaskRef)
+  registered : List (Name × Reg)
+  awgs : List Awg
+  dacs : List Dac
+  deriving DecidableEq, Repr
+
+def init (cfg : List (Nat × Nat)) (ndacs : Nat) : State :=
+  { chanMap := [], measMap := [], registered := [],
+    awgs := cfg.map fun c => { nch := c.1, nmk := c.2, progs := [], armed := none },
+    dacs := List.replicate ndacs { progs := [], armed := none } }
+
+inductive OutSpec where
+  | out (o : Out)
+  | junk                  -- an element that is neither a playback nor a marker channel
+  deriving DecidableEq, Repr
+
+def OutSpec.out? : OutSpec → Option Out
+  | .out o => some o
+  | .junk => none
+
+def OutSpec.isJunk : OutSpec → Bool
+  | .out _ => false
+  | .junk => true
+
+inductive Op where
+  | setChannel (id : Chan) (specs : List OutSpec) (allow : Bool)
+  | setChannelSingle (id : Chan) (o : Out) (allow : Bool)
+  | setMeasurement (m : MName) (masks : List MaskRef) (allow : Bool)
+  | setMeasurementSingle (m : MName) (mask : MaskRef) (allow : Bool)
+  | rmChannel (id : Chan)
+  | register (n : Name) (p : Program) (cbOk update : Bool) (override : Option (List (MName × Windows)))
+  | remove (n : Name)
+  | clear
+  | arm (n : Name)
+  | run (n : Name)
+  deriving Repr
+
+/-! ## wiring queries -/
+
+def wired (cm : List (Chan × List Out)) (c : Chan) : List Out := (aget c cm).getD []
+def wiredM (mm : List (MName × List MaskRef)) (m : MName) : List MaskRef := (aget m mm).getD []
+
+/-- `known_awgs` -/
+def knownAwg (s : State) (a : AwgId) : Bool := s.chanMap.any fun kv => kv.2.any fun o => decide (o.awg = a)
+/-- `known_dacs` -/
+def knownDac (s : State) (d : DacId) : Bool := s.measMap.any fun kv => kv.2.any fun m => decide (m.dac = d)
+
+/-! ## set_channel / set_measurement / rm_channel -/
+
+def knownOut (s : State) (o : Out) : Bool := (s.awgs[o.awg]?).isSome
+/-- the check in `PlaybackChannel.__init__` / `MarkerChannel.__init__` -/
+def inRange (s : State) (o : Out) : Bool :=
+  match s.awgs[o.awg]? with
+  | some g => decide (o.pos < g.size o.kind)
+  | none => false
+
+def setChannelCore (s : State) (id : Chan) (outs : List Out) (allow junk : Bool) : Except Err State :=
+  if !allow && (s.chanMap.any fun kv => kv.2.any fun o' => outs.any fun o => o.same o') then .error .valueError
+  else if junk then .error .typeError
+  else .ok { s with chanMap := aput id outs s.chanMap }
+
+def setChannel (s : State) (id : Chan) (specs : List OutSpec) (allow : Bool) : Except Err State :=
+  let outs0 := specs.filterMap OutSpec.out?
+  if !(outs0.all (knownOut s)) then .error .unknownDevice
+  else if !(outs0.all (inRange s)) then .error .valueError
+  else setChannelCore s id (dedup Out.same outs0) allow (specs.any OutSpec.isJunk)
+
+def setChannelSingle (s : State) (id : Chan) (o : Out) (allow : Bool) : Except Err State :=
+  if !(knownOut s o) then .error .unknownDevice
+  else if !(inRange s o) then .error .valueError
+  else
+    let outs := match aget id s.chanMap with
+      | some old => dedup Out.same (old ++ [o])
+      | none => [o]
+    setChannelCore s id outs allow false
+
+def knownMask (s : State) (m : MaskRef) : Bool := decide (m.dac < s.dacs.length)
+
+def setMeasurementCore (s : State) (μ : MName) (masks : List MaskRef) (allow : Bool) : Except Err State :=
+  if !allow && (s.measMap.any fun kv => kv.2.any fun m' => masks.any fun m => m.same m') then .error .valueError
+  else .ok { s with measMap := aput μ masks s.measMap }
+
+def setMeasurement (s : State) (μ : MName) (masks : List MaskRef) (allow : Bool) : Except Err State :=
+  if !(masks.all (knownMask s)) then .error .unknownDevice
+  else setMeasurementCore s μ (dedup MaskRef.same masks) allow
+
+def setMeasurementSingle (s : State) (μ : MName) (m : MaskRef) (allow : Bool) : Except Err State :=
+  if !(knownMask s m) then .error .unknownDevice
+  else
+    let masks := match aget μ s.measMap with
+      | some old => dedup MaskRef.same (old ++ [m])
+      | none => [m]
+    setMeasurementCore s μ masks allow
+
+def rmChannel (s : State) (id : Chan) : Except Err State :=
+  if hasKey id s.chanMap then .ok { s with chanMap := adel id s.chanMap } else .error .keyError
+
+/-! ## register_program -/
+
+/-- all `(channel_id, single_channel)` pairs in the order the nested loops visit them -/
+def assignments (cm : List (Chan × List Out)) (chans : List Chan) : List (Chan × Out) :=
+  chans.flatMap fun c => (wired cm c).map fun o => (c, o)
+
+def hits (a : AwgId) (k : Kind) (p : Nat) (co : Chan × Out) : Bool :=
+  decide (co.2.awg = a ∧ co.2.kind = k ∧ co.2.pos = p)
+
+/-- the last write to position `p` of the `k` list of AWG `a` -/
+def slot (asg : List (Chan × Out)) (a : AwgId) (k : Kind) (p : Nat) : Option (Chan × Out) :=
+  (asg.filter (hits a k p)).getLast?
+
+def mkUpload (pid : Nat) (asg : List (Chan × Out)) (a : AwgId) (g : Awg) : Upload :=
+  { pid := pid,
+    chs := (List.range g.nch).map fun p => (slot asg a .playback p).map (·.1),
+    mks := (List.range g.nmk).map fun p => (slot asg a .marker p).map (·.1),
+    tfs := (List.range g.nch).map fun p => (slot asg a .playback p).map (·.2.trafo) }
+
+/-- all `(mask object, windows)` pairs in the order `affected_dacs` is filled -/
+def maskAsg (mm : List (MName × List MaskRef)) (meas : List (MName × Windows)) : List (MaskRef × Windows) :=
+  meas.flatMap fun mw => (wiredM mm mw.1).map fun m => (m, mw.2)
+
+def mhits (d : DacId) (m : Mask) (x : MaskRef × Windows) : Bool := decide (x.1.dac = d ∧ x.1.mask = m)
+
+def mslot (masg : List (MaskRef × Windows)) (d : DacId) (m : Mask) : Option Windows :=
+  ((masg.filter (mhits d m)).getLast?).map (·.2)
+
+/-- `affected_dacs[dac]` -/
+def maskDict (masg : List (MaskRef × Windows)) (d : DacId) : List (Mask × Windows) :=
+  ((masg.filter fun x => decide (x.1.dac = d)).map (·.1.mask)).filterMap fun m => (mslot masg d m).map fun w => (m, w)
+
+/-- the devices recorded by the previous registration of `n` -/
+def oldAwgs (s : State) (n : Name) : List AwgId :=
+  match aget n s.registered with
+  | some r => r.awgs
+  | none => []
+
+def oldDacs (s : State) (n : Name) : List DacId :=
+  match aget n s.registered with
+  | some r => r.dacs
+  | none => []
+
+def register (fix : Bool) (s : State) (n : Name) (p : Program) (cbOk update : Bool)
+    (override : Option (List (MName × Windows))) : Except Err State :=
+  if !cbOk then .error .typeError
+  else if p.channels.any (fun c => !hasKey c s.chanMap) then .error .keyError
+  else
+    let meas := override.getD p.meas
+    if meas.any (fun mw => !hasKey mw.1 s.measMap) then .error .keyError
+    else
+      let asg := assignments s.chanMap p.channels
+      let part := asg.map (·.2.awg)
+      let masg := maskAsg s.measMap meas
+      let dpart := masg.map (·.1.dac)
+      -- `DummyAWG.upload` without `force` on a name it already holds
+      if !update && (part.any fun a => match s.awgs[a]? with
+                                        | some g => hasKey n g.progs
+                                        | none => false) then .error .programOverwrite
+      else
+        let staleA : List AwgId := if fix then oldAwgs s n else []
+        let staleD : List DacId := if fix then oldDacs s n else []
+        .ok { s with
+          awgs := s.awgs.mapIdx fun a g =>
+            if a ∈ part then { g with progs := aput n (mkUpload p.pid asg a g) g.progs }
+            else if a ∈ staleA then { g with progs := adel n g.progs, armed := none }
+            else g,
+          dacs := s.dacs.mapIdx fun d g =>
+            if d ∈ dpart then { g with progs := aput n (maskDict masg d) g.progs }
+            else if d ∈ staleD then { g with progs := adel n g.progs }
+            else g,
+          registered := aput n { pid := p.pid, channels := p.channels, meas := meas, awgs := part, dacs := dpart }
+                          s.registered }
+
+/-! ## remove_program / clear_programs / arm_program -/
+
+def remove (s : State) (n : Name) : State :=
+  match aget n s.registered with
+  | none => s
+  | some r =>
+    { s with
+      registered := adel n s.registered,
+      awgs := s.awgs.mapIdx fun a g => if a ∈ r.awgs then { g with progs := adel n g.progs, armed := none } else g,
+      dacs := s.dacs.mapIdx fun d g => if d ∈ r.dacs then { g with progs := adel n g.progs } else g }
+
+/-- registered program names whose record lists generator `a` -/
+def recordedOnAwg (s : State) (a : AwgId) (n : Name) : Bool :=
+  match aget n s.registered with
+  | some r => decide (a ∈ r.awgs)
+  | none => false
+
+def recordedOnDac (s : State) (d : DacId) (n : Name) : Bool :=
+  match aget n s.registered with
+  | some r => decide (d ∈ r.dacs)
+  | none => false
+
+/-- `clear_programs`.  `fix = true` is the behaviour with `fixes/PF-C18a.diff`: devices that dropped out of the
+wiring after a registration are not reached by clearing the *known* devices, so every registered program is
+first removed from the recorded devices that are no longer known (disarm + remove / delete_program).
+`fix = false`: the unrepaired code leaves such devices alone. -/
+def clearWith (fix : Bool) (s : State) : State :=
+  { s with
+    registered := [],
+    awgs := s.awgs.mapIdx fun a g =>
+      if knownAwg s a then { g with progs := [] }
+      else if fix then
+        { g with progs := g.progs.filter (fun kv => !recordedOnAwg s a kv.1),
+                 armed := if s.registered.any (fun nr => decide (a ∈ nr.2.awgs)) then none else g.armed }
+      else g,
+    dacs := s.dacs.mapIdx fun d g =>
+      if knownDac s d then { progs := [], armed := none }
+      else if fix then { g with progs := g.progs.filter (fun kv => !recordedOnDac s d kv.1) }
+      else g }
+
+def clear (s : State) : State := clearWith true s
+
+def arm (s : State) (n : Name) : Except Err State :=
+  match aget n s.registered with
+  | none => .error .keyError
+  | some r =>
+    .ok { s with
+      awgs := s.awgs.mapIdx fun a g =>
+        if knownAwg s a then { g with armed := if a ∈ r.awgs then some n else none } else g,
+      dacs := s.dacs.mapIdx fun d g => if d ∈ r.dacs then { g with armed := some n } else g }
+
+def stepWith (fix : Bool) (s : State) : Op → Except Err State
+  | .setChannel id specs allow => setChannel s id specs allow
+  | .setChannelSingle id o allow => setChannelSingle s id o allow
+  | .setMeasurement m masks allow => setMeasurement s m masks allow
+  | .setMeasurementSingle m mask allow => setMeasurementSingle s m mask allow
+  | .rmChannel id => rmChannel s id
+  | .register n p cbOk update override => register fix s n p cbOk update override
+  | .remove n => .ok (remove s n)
+  | .clear => .ok (clearWith fix s)
+  | .arm n => arm s n
+  | .run n => arm s n
+
+/-- the repaired code -/
+def step (s : State) (op : Op) : Except Err State := stepWith true s op
+
+def runWith (fix : Bool) : State → List Op → Except Err State
+  | s, [] => .ok s
+  | s, op :: ops =>
+    match stepWith fix s op with
+    | .error e => .error e
+    | .ok s' => runWith fix s' ops
+
+def run (s : State) (ops : List Op) : Except Err State := runWith true s ops
+
+/-- a raising call that leaves the state alone is skipped (what the harness does with a history) -/
+def stepSkip (s : State) (op : Op) : State :=
+  match step s op with
+  | .ok s' => s'
+  | .error _ => s
+
+/-! ## which operations re-wire a name that a registered program uses (outside the statement) -/
+
+def chanUsed (s : State) (c : Chan) : Bool := s.registered.any fun nr => decide (c ∈ nr.2.channels)
+def measUsed (s : State) (m : MName) : Bool := s.registered.any fun nr => nr.2.meas.any fun mw => decide (mw.1 = m)
+
+def rewires (s : State) : Op → Bool
+  | .setChannel id _ _ => chanUsed s id
+  | .setChannelSingle id _ _ => chanUsed s id
+  | .setMeasurement m _ _ => measUsed s m
+  | .setMeasurementSingle m _ _ => measUsed s m
+  | .rmChannel id => chanUsed s id
+  | _ => false
+
+/-- every operation of the history leaves the wiring of the names used by registered programs alone -/
+def Admissible : State → List Op → Prop
+  | _, [] => True
+  | s, op :: ops => rewires s op = false ∧ ∀ s', step s op = .ok s' → Admissible s' ops
+
+/-! ## the invariant -/
+
+def Participates (s : State) (chans : List Chan) (a : AwgId) : Prop :=
+  ∃ c ∈ chans, ∃ o ∈ wired s.chanMap c, o.awg = a
+
+def ParticipatesD (s : State) (meas : List (MName × Windows)) (d : DacId) : Prop :=
+  ∃ mw ∈ meas, ∃ m ∈ wiredM s.measMap mw.1, m.dac = d
+
+instance (s : State) (chans : List Chan) (a : AwgId) : Decidable (Participates s chans a) := by
+  unfold Participates; infer_instance
+instance (s : State) (meas : List (MName × Windows)) (d : DacId) : Decidable (ParticipatesD s meas d) := by
+  unfold ParticipatesD; infer_instance
+
+/-- position `p` of the playback tuples: a channel of the program wired to that output together with
+the transformation of that very output, or `None` when no channel of the program is wired there -/
+def PlaybackSlotOK (s : State) (r : Reg) (a : AwgId) (p : Nat) (v : Option Chan) (t : Option Trafo) : Prop :=
+  match v with
+  | some c => c ∈ r.channels ∧ ∃ o ∈ wired s.chanMap c, o.awg = a ∧ o.kind = .playback ∧ o.pos = p ∧ t = some o.trafo
+  | none => t = none ∧ ∀ c ∈ r.channels, ∀ o ∈ wired s.chanMap c, ¬ (o.awg = a ∧ o.kind = .playback ∧ o.pos = p)
+
+def MarkerSlotOK (s : State) (r : Reg) (a : AwgId) (p : Nat) (v : Option Chan) : Prop :=
+  match v with
+  | some c => c ∈ r.channels ∧ ∃ o ∈ wired s.chanMap c, o.awg = a ∧ o.kind = .marker ∧ o.pos = p
+  | none => ∀ c ∈ r.channels, ∀ o ∈ wired s.chanMap c, ¬ (o.awg = a ∧ o.kind = .marker ∧ o.pos = p)
+
+instance (s : State) (r : Reg) (a : AwgId) (p : Nat) (v : Option Chan) (t : Option Trafo) :
+    Decidable (PlaybackSlotOK s r a p v t) := by
+  unfold PlaybackSlotOK; cases v <;> infer_instance
+instance (s : State) (r : Reg) (a : AwgId) (p : Nat) (v : Option Chan) : Decidable (MarkerSlotOK s r a p v) := by
+  unfold MarkerSlotOK; cases v <;> infer_instance
+
+def UploadOK (s : State) (r : Reg) (a : AwgId) (g : Awg) (u : Upload) : Prop :=
+  u.pid = r.pid ∧ u.chs.length = g.nch ∧ u.tfs.length = g.nch ∧ u.mks.length = g.nmk ∧
+  (∀ p, p < g.nch → PlaybackSlotOK s r a p ((u.chs[p]?).join) ((u.tfs[p]?).join)) ∧
+  (∀ p, p < g.nmk → MarkerSlotOK s r a p ((u.mks[p]?).join))
+
+instance (s : State) (r : Reg) (a : AwgId) (g : Awg) (u : Upload) : Decidable (UploadOK s r a g u) := by
+  unfold UploadOK; infer_instance
+
+/-- the mask dictionary a DAC holds for a program: every mask carries the windows of a measurement of the
+program wired to it, and every mask a measurement of the program is wired to is present -/
+def MasksOK (s : State) (r : Reg) (d : DacId) (w : List (Mask × Windows)) : Prop :=
+  (∀ mw ∈ w, ∃ x ∈ r.meas, x.2 = mw.2 ∧ ∃ m ∈ wiredM s.measMap x.1, m.dac = d ∧ m.mask = mw.1) ∧
+  (∀ x ∈ r.meas, ∀ m ∈ wiredM s.measMap x.1, m.dac = d → (aget m.mask w).isSome = true)
+
+instance (s : State) (r : Reg) (d : DacId) (w : List (Mask × Windows)) : Decidable (MasksOK s r d w) := by
+  unfold MasksOK; infer_instance
+
+/-- `∃ x, o = some x ∧ Q x` is decidable -/
+instance optExDec {α : Type} (o : Option α) (Q : α → Prop) [∀ x, Decidable (Q x)] :
+    Decidable (∃ x, o = some x ∧ Q x) :=
+  match o with
+  | none => isFalse (by simp)
+  | some x => if h : Q x then isTrue ⟨x, rfl, h⟩ else isFalse (by simpa using h)
+
+structure Inv (s : State) : Prop where
+  /-- wiring refers to existing outputs (what the channel constructors check) -/
+  wfChan : ∀ c outs, aget c s.chanMap = some outs → ∀ o ∈ outs, inRange s o = true
+  wfMeas : ∀ μ ms, aget μ s.measMap = some ms → ∀ m ∈ ms, knownMask s m = true
+  /-- the participation record of a registered program is what the wiring says -/
+  regAwgs : ∀ n r, aget n s.registered = some r → (∀ a ∈ r.awgs, Participates s r.channels a) ∧
+              (∀ c ∈ r.channels, ∀ o ∈ wired s.chanMap c, o.awg ∈ r.awgs)
+  regDacs : ∀ n r, aget n s.registered = some r → (∀ d ∈ r.dacs, ParticipatesD s r.meas d) ∧
+              (∀ x ∈ r.meas, ∀ m ∈ wiredM s.measMap x.1, m.dac ∈ r.dacs)
+  /-- whatever a generator holds is a registered program that uses one of its channels, correctly placed -/
+  awgHeld : ∀ a g, s.awgs[a]? = some g → ∀ n u, aget n g.progs = some u →
+              ∃ r, aget n s.registered = some r ∧ (Participates s r.channels a ∧ UploadOK s r a g u)
+  /-- every generator owning one of a registered program's channels holds it -/
+  awgHolds : ∀ a g, s.awgs[a]? = some g → ∀ n r, aget n s.registered = some r →
+              Participates s r.channels a → (aget n g.progs).isSome = true
+  dacHeld : ∀ d g, s.dacs[d]? = some g → ∀ n w, aget n g.progs = some w →
+              ∃ r, aget n s.registered = some r ∧ (ParticipatesD s r.meas d ∧ MasksOK s r d w)
+  dacHolds : ∀ d g, s.dacs[d]? = some g → ∀ n r, aget n s.registered = some r →
+              ParticipatesD s r.meas d → (aget n g.progs).isSome = true
+
+/-! ### executable judge -/
+
+def allGet {κ β : Type} [DecidableEq κ] [DecidableEq β] (l : List (κ × β)) (P : κ → β → Bool) : Bool :=
+  l.all fun kv => !(decide (aget kv.1 l = some kv.2)) || P kv.1 kv.2
+
+def allIdx {α : Type} (l : List α) (P : Nat → α → Bool) : Bool :=
+  l.zipIdx.all fun xi => P xi.2 xi.1
+
+def wfChanB (s : State) : Bool := allGet s.chanMap fun _ outs => outs.all (inRange s)
+def wfMeasB (s : State) : Bool := allGet s.measMap fun _ ms => ms.all (knownMask s)
+def regAwgsB (s : State) : Bool := allGet s.registered fun _ r =>
+  decide ((∀ a ∈ r.awgs, Participates s r.channels a) ∧ (∀ c ∈ r.channels, ∀ o ∈ wired s.chanMap c, o.awg ∈ r.awgs))
+def regDacsB (s : State) : Bool := allGet s.registered fun _ r =>
+  decide ((∀ d ∈ r.dacs, ParticipatesD s r.meas d) ∧ (∀ x ∈ r.meas, ∀ m ∈ wiredM s.measMap x.1, m.dac ∈ r.dacs))
+def awgHeldB (s : State) : Bool := allIdx s.awgs fun a g => allGet g.progs fun n u =>
+  decide (∃ r, aget n s.registered = some r ∧ (Participates s r.channels a ∧ UploadOK s r a g u))
+def awgHoldsB (s : State) : Bool := allIdx s.awgs fun a g => allGet s.registered fun n r =>
+  decide (Participates s r.channels a → (aget n g.progs).isSome = true)
+def dacHeldB (s : State) : Bool := allIdx s.dacs fun d g => allGet g.progs fun n w =>
+  decide (∃ r, aget n s.registered = some r ∧ (ParticipatesD s r.meas d ∧ MasksOK s r d w))
+def dacHoldsB (s : State) : Bool := allIdx s.dacs fun d g => allGet s.registered fun n r =>
+  decide (ParticipatesD s r.meas d → (aget n g.progs).isSome = true)
+
+def invB (s : State) : Bool :=
+  wfChanB s && wfMeasB s && regAwgsB s && regDacsB s && awgHeldB s && awgHoldsB s && dacHeldB s && dacHoldsB s
+
+/-- the first clause that fails (for replay files) -/
+def judge (s : State) : String :=
+  if !wfChanB s then "wiring-out-of-range"
+  else if !wfMeasB s then "mask-on-unknown-dac"
+  else if !regAwgsB s then "record-awgs-differ-from-wiring"
+  else if !regDacsB s then "record-dacs-differ-from-wiring"
+  else if !awgHeldB s then "awg-holds-unregistered-or-unrelated-or-misplaced-program"
+  else if !awgHoldsB s then "awg-misses-program"
+  else if !dacHeldB s then "dac-holds-unregistered-or-unrelated-or-wrong-windows"
+  else if !dacHoldsB s then "dac-misses-program"
+  else "ok"
+
+/-! ### the record invariant (independent of the wiring, hence also of re-wiring) -/
+
+/-- whatever a device holds is a registered program whose record lists that device.  Needs no assumption on
+the wiring: it survives `set_channel` / `set_measurement` / `rm_channel` on names in use, and it is what makes
+`remove_program` and `clear_programs` reach every holder. -/
+structure RecInv (s : State) : Prop where
+  awgRec : ∀ (a : AwgId) (g : Awg), s.awgs[a]? = some g → ∀ n u, aget n g.progs = some u →
+              ∃ r, aget n s.registered = some r ∧ a ∈ r.awgs
+  dacRec : ∀ (d : DacId) (g : Dac), s.dacs[d]? = some g → ∀ n w, aget n g.progs = some w →
+              ∃ r, aget n s.registered = some r ∧ d ∈ r.dacs
+
+def awgRecB (s : State) : Bool := allIdx s.awgs fun a g => allGet g.progs fun n _ =>
+  decide (∃ r, aget n s.registered = some r ∧ a ∈ r.awgs)
+def dacRecB (s : State) : Bool := allIdx s.dacs fun d g => allGet g.progs fun n _ =>
+  decide (∃ r, aget n s.registered = some r ∧ d ∈ r.dacs)
+def recInvB (s : State) : Bool := awgRecB s && dacRecB s
+
+def judgeRec (s : State) : String :=
+  if !awgRecB s then "awg-holds-program-outside-its-record"
+  else if !dacRecB s then "dac-holds-program-outside-its-record"
+  else "ok"
+
+/-! ### arming, removal, clearing -/
+
+/-- after arming `n` (state `s` before, `s'` after): every generator of the setup is armed with `n` if it
+owns one of the program's channels and disarmed otherwise; every acquisition device with one of its masks
+is armed with `n` -/
+def ArmSpec (s : State) (n : Name) (s' : State) : Prop :=
+  ∃ r, aget n s.registered = some r ∧
+    (∀ a g', s'.awgs[a]? = some g' → knownAwg s a = true →
+        g'.armed = if Participates s r.channels a then some n else none) ∧
+    (∀ d g', s'.dacs[d]? = some g' → ParticipatesD s r.meas d → g'.armed = some n)
+
+instance (s : State) (n : Name) (s' : State) : Decidable (ArmSpec s n s') := by
+  unfold ArmSpec
+  have : ∀ r : Reg, Decidable
+      ((∀ a g', s'.awgs[a]? = some g' → knownAwg s a = true →
+          g'.armed = if Participates s r.channels a then some n else none) ∧
+       (∀ d g', s'.dacs[d]? = some g' → ParticipatesD s r.meas d → g'.armed = some n)) := fun r =>
+    decidable_of_iff
+      ((∀ xi ∈ s'.awgs.zipIdx, knownAwg s xi.2 = true →
+          xi.1.armed = if Participates s r.channels xi.2 then some n else none) ∧
+       (∀ xi ∈ s'.dacs.zipIdx, ParticipatesD s r.meas xi.2 → xi.1.armed = some n))
+      (by
+        constructor
+        · rintro ⟨h1, h2⟩
+          exact ⟨fun a g' hg => h1 (g', a) (List.mem_zipIdx_iff_getElem?.2 hg),
+                 fun d g' hg => h2 (g', d) (List.mem_zipIdx_iff_getElem?.2 hg)⟩
+        · rintro ⟨h1, h2⟩
+          exact ⟨fun xi hx => h1 xi.2 xi.1 (List.mem_zipIdx_iff_getElem?.1 hx),
+                 fun xi hx => h2 xi.2 xi.1 (List.mem_zipIdx_iff_getElem?.1 hx)⟩)
+  infer_instance
+
+/-- program `n` is gone everywhere -/
+def Gone (s : State) (n : Name) : Prop :=
+  aget n s.registered = none ∧ (∀ g ∈ s.awgs, aget n g.progs = none) ∧ (∀ g ∈ s.dacs, aget n g.progs = none)
+
+instance (s : State) (n : Name) : Decidable (Gone s n) := by unfold Gone; infer_instance
+
+
+/-! ## Line protocol -/
 open Sexp
 
+def errS : Err → String
+  | .typeError => "type_error"
+  | .keyError => "key_error"
+  | .valueError => "value_error"
+  | .programOverwrite => "program_overwrite"
+  | .unknownDevice => "unknown_device"
+
+def kindS : Kind → Sexp
+  | .playback => .atom "pb"
+  | .marker => .atom "mk"
+
+def kind? : Sexp → Option Kind
+  | .atom "pb" => some .playback
+  | .atom "mk" => some .marker
+  | _ => none
+
+def optNatS : Option Nat → Sexp
+  | some n => ofNat n
+  | none => .atom "none"
+
+def optNat? : Sexp → Option (Option Nat)
+  | .atom "none" => some none
+  | x => (nat? x).map some
+
+def outS (o : Out) : Sexp := .list [.atom "o", ofNat o.awg, kindS o.kind, ofNat o.pos, ofNat o.trafo]
+
+def out? : Sexp → Option Out
+  | .list [.atom "o", a, k, p, t] => do
+      some { awg := ← nat? a, kind := ← kind? k, pos := ← nat? p, trafo := ← nat? t }
+  | _ => none
+
+def outSpec? : Sexp → Option OutSpec
+  | .atom "junk" => some .junk
+  | x => (out? x).map .out
+
+def maskS (m : MaskRef) : Sexp := .list [ofNat m.dac, ofNat m.mask, ofNat m.oid]
+
+def mask? : Sexp → Option MaskRef
+  | .list [d, m, o] => do some { dac := ← nat? d, mask := ← nat? m, oid := ← nat? o }
+  | _ => none
+
+def windowsS (w : Windows) : Sexp := .list (w.map fun bl => .list [ofRat bl.1, ofRat bl.2])
+
+def windows? : Sexp → Option Windows
+  | .list xs => xs.mapM fun
+      | .list [b, l] => do some (← rat? b, ← rat? l)
+      | _ => none
+  | _ => none
+
+def keyedS {β : Type} (f : β → Sexp) (l : List (Nat × β)) : Sexp :=
+  .list (l.map fun kv => .list [ofNat kv.1, f kv.2])
+
+def keyed? {β : Type} (f : Sexp → Option β) : Sexp → Option (List (Nat × β))
+  | .list xs => xs.mapM fun
+      | .list [k, v] => do some (← nat? k, ← f v)
+      | _ => none
+  | _ => none
+
+def natsS (l : List Nat) : Sexp := .list (l.map ofNat)
+
+def uploadS (u : Upload) : Sexp :=
+  .list [ofNat u.pid, .list (u.chs.map optNatS), .list (u.mks.map optNatS), .list (u.tfs.map optNatS)]
+
+def upload? : Sexp → Option Upload
+  | .list [p, c, m, t] => do
+      some { pid := ← nat? p, chs := ← listOf? optNat? c, mks := ← listOf? optNat? m, tfs := ← listOf? optNat? t }
+  | _ => none
+
+def awgS (g : Awg) : Sexp := .list [ofNat g.nch, ofNat g.nmk, optNatS g.armed, keyedS uploadS g.progs]
+
+def awg? : Sexp → Option Awg
+  | .list [c, m, a, ps] => do
+      some { nch := ← nat? c, nmk := ← nat? m, armed := ← optNat? a, progs := ← keyed? upload? ps }
+  | _ => none
+
+def dacS (g : Dac) : Sexp := .list [optNatS g.armed, keyedS (keyedS windowsS) g.progs]
+
+def dac? : Sexp → Option Dac
+  | .list [a, ps] => do some { armed := ← optNat? a, progs := ← keyed? (keyed? windows?) ps }
+  | _ => none
+
+def regS (r : Reg) : Sexp :=
+  .list [ofNat r.pid, natsS r.channels, keyedS windowsS r.meas, natsS r.awgs, natsS r.dacs]
+
+def reg? : Sexp → Option Reg
+  | .list [p, c, m, a, d] => do
+      some { pid := ← nat? p, channels := ← listOf? nat? c, meas := ← keyed? windows? m,
+             awgs := ← listOf? nat? a, dacs := ← listOf? nat? d }
+  | _ => none
+
+def stateS (s : State) : Sexp :=
+  .list [.atom "state",
+         keyedS (fun outs => .list (outs.map outS)) s.chanMap,
+         keyedS (fun ms => .list (ms.map maskS)) s.measMap,
+         keyedS regS s.registered,
+         .list (s.awgs.map awgS),
+         .list (s.dacs.map dacS)]
+
+def state? : Sexp → Option State
+  | .list [.atom "state", cm, mm, rg, ag, dc] => do
+      some { chanMap := ← keyed? (listOf? out?) cm, measMap := ← keyed? (listOf? mask?) mm,
+             registered := ← keyed? reg? rg, awgs := ← listOf? awg? ag, dacs := ← listOf? dac? dc }
+  | _ => none
+
+def program? : Sexp → Option Program
+  | .list [.atom "prog", p, c, m] => do
+      some { pid := ← nat? p, channels := ← listOf? nat? c, meas := ← keyed? windows? m }
+  | _ => none
+
+def op? : Sexp → Option Op
+  | .list [.atom "set-channel", id, allow, .list specs] => do
+      some (.setChannel (← nat? id) (← specs.mapM outSpec?) (← bool? allow))
+  | .list [.atom "set-channel-single", id, allow, o] => do
+      some (.setChannelSingle (← nat? id) (← out? o) (← bool? allow))
+  | .list [.atom "set-measurement", m, allow, masks] => do
+      some (.setMeasurement (← nat? m) (← listOf? mask? masks) (← bool? allow))
+  | .list [.atom "set-measurement-single", m, allow, mask] => do
+      some (.setMeasurementSingle (← nat? m) (← mask? mask) (← bool? allow))
+  | .list [.atom "rm-channel", id] => do some (.rmChannel (← nat? id))
+  | .list [.atom "register", n, p, cb, upd, ov] => do
+      let ov ← match ov with
+        | .atom "none" => some none
+        | x => (keyed? windows? x).map some
+      some (.register (← nat? n) (← program? p) (← bool? cb) (← bool? upd) ov)
+  | .list [.atom "remove", n] => do some (.remove (← nat? n))
+  | .list [.atom "clear"] => some .clear
+  | .list [.atom "arm", n] => do some (.arm (← nat? n))
+  | .list [.atom "run", n] => do some (.run (← nat? n))
+  | _ => none
+
+def cfg? : Sexp → Option (List (Nat × Nat) × Nat)
+  | .list [.atom "cfg", .list awgs, nd] => do
+      let a ← awgs.mapM fun
+        | .list [c, m] => do some (← nat? c, ← nat? m)
+        | _ => none
+      some (a, ← nat? nd)
+  | _ => none
+
+/-- run a history; a raising call leaves the state alone; one trace entry per operation -/
+def trace (fix : Bool) : State → List Op → List Sexp
+  | _, [] => []
+  | s, op :: ops =>
+    let rw := ofBool (rewires s op)
+    match stepWith fix s op with
+    | .error e => .list [.atom "error", .atom (errS e), rw] :: trace fix s ops
+    | .ok s' => .list [.atom "ok", rw, stateS s'] :: trace fix s' ops
+
 def handle : List Sexp → Sexp
-  | _ => Sexp.err "c18-not-implemented"
+  | [.atom "run", fix, cfg, .list ops] =>
+    match bool? fix, cfg? cfg, ops.mapM op? with
+    | some fix, some (a, nd), some ops => .list (.atom "trace" :: trace fix (init a nd) ops)
+    | _, _, _ => Sexp.err "bad-args"
+  -- the same, the trace entries of the first `k` operations (a shared, already checked prefix) are omitted
+  | [.atom "run-from", k, fix, cfg, .list ops] =>
+    match nat? k, bool? fix, cfg? cfg, ops.mapM op? with
+    | some k, some fix, some (a, nd), some ops => .list (.atom "trace" :: (trace fix (init a nd) ops).drop k)
+    | _, _, _, _ => Sexp.err "bad-args"
+  | [.atom "judge", st] =>
+    match state? st with
+    | some s => .list [.atom "judge", .atom (judge s)]
+    | none => Sexp.err "bad-state"
+  | [.atom "judge-rec", st] =>
+    match state? st with
+    | some s => .list [.atom "judge", .atom (judgeRec s)]
+    | none => Sexp.err "bad-state"
+  | [.atom "judge-arm", st, n, st'] =>
+    match state? st, nat? n, state? st' with
+    | some s, some n, some s' =>
+      .list [.atom "judge", .atom (if decide (ArmSpec s n s') then "ok" else "arm-spec-violated")]
+    | _, _, _ => Sexp.err "bad-args"
+  | [.atom "judge-gone", st, n] =>
+    match state? st, nat? n with
+    | some s, some n => .list [.atom "judge", .atom (if decide (Gone s n) then "ok" else "program-still-present")]
+    | _, _ => Sexp.err "bad-args"
+  | _ => Sexp.err "c18-unknown-request"
 
 end QP.C18
